@@ -75,6 +75,7 @@ pub enum DevOutcome {
 }
 
 pub struct Honest {
+    pub model: m1::Model,
     pub layout: u64,
     pub snap: Snapshot,
     pub meta: Meta,
@@ -94,7 +95,8 @@ pub fn honest(g: &Gadget) -> Result<Honest, String> {
             let verdict = m1::decide_self(&snap);
             let outs = meta.outs.iter().map(|i| snap.witnesses[*i]).collect();
             let layout = m1::layout_key(&snap);
-            Ok(Honest { layout, snap, meta, verdict, outs })
+            let model = m1::Model::new(&snap);
+            Ok(Honest { model, layout, snap, meta, verdict, outs })
         }
     }
 }
@@ -112,9 +114,10 @@ pub fn run_dev(g: &Gadget, h: &Honest, d: &Dev) -> DevOutcome {
         Ok(Err(e)) => DevOutcome::GenErr(format!("{:?}", e)),
         Ok(Ok(snap)) => {
             let meta = meta.lock().unwrap().clone();
-            let verdict = m1::decide(&h.snap, &snap);
+            let verdict = h.model.decide(&snap);
             let outs = meta.outs.iter().map(|i| snap.witnesses[*i]).collect();
-            let same_layout = m1::layout_key(&snap) == h.layout;
+            // cheap shape comparison here; full layout equality is C07's job
+            let same_layout = snap.gates.len() == h.snap.gates.len() && snap.witnesses.len() == h.snap.witnesses.len();
             DevOutcome::Decided { verdict, outs, same_layout }
         }
     }
